@@ -104,7 +104,21 @@ func OpSequence() []string {
 	return append([]string(nil), opOrder...)
 }
 
+// Quiet switches off every piece of shared engine-side bookkeeping (call
+// counters, live-index accounting). It is set once, before any task starts, by
+// race-detector runs: shared counters would add happens-before edges between
+// tasks and hide races of the code under test. In this mode a closed index
+// keeps a plain (non-atomic) flag, so that a use racing with a close is
+// itself reported by the race detector.
+var Quiet bool
+
 func enter(op string) error {
+	if Quiet {
+		if h := Hook; h != nil {
+			return h(op, 0)
+		}
+		return nil
+	}
 	mu.Lock()
 	opCounts[op]++
 	n := opCounts[op]
@@ -130,17 +144,18 @@ type Index interface {
 
 // IndexImpl is the only index type of the stub.
 type IndexImpl struct {
-	id        int64
-	d         int
-	metric    int
-	ivf       bool
-	nlist     int
-	nprobe    int32
-	trained   bool
-	directMap bool
-	ids       []int64
-	vecs      []float32
-	closedFlg int32
+	id          int64
+	d           int
+	metric      int
+	ivf         bool
+	nlist       int
+	nprobe      int32
+	trained     bool
+	directMap   bool
+	ids         []int64
+	vecs        []float32
+	closedFlg   int32
+	closedPlain bool
 }
 
 func (idx *IndexImpl) impl() *IndexImpl { return idx }
@@ -149,12 +164,21 @@ func (idx *IndexImpl) impl() *IndexImpl { return idx }
 func (idx *IndexImpl) ID() int64 { return idx.id }
 
 func (idx *IndexImpl) use() {
+	if Quiet {
+		if idx.closedPlain {
+			panic("stub faiss: index used after Close")
+		}
+		return
+	}
 	if atomic.LoadInt32(&idx.closedFlg) != 0 {
 		atomic.AddInt64(&usedAfterClose, 1)
 	}
 }
 
 func newIndex() *IndexImpl {
+	if Quiet {
+		return &IndexImpl{}
+	}
 	atomic.AddInt64(&created, 1)
 	return &IndexImpl{id: atomic.AddInt64(&nextIdxID, 1)}
 }
@@ -209,6 +233,10 @@ func (idx *IndexImpl) Size() uint64 {
 }
 
 func (idx *IndexImpl) Close() {
+	if Quiet {
+		idx.closedPlain = true
+		return
+	}
 	if !atomic.CompareAndSwapInt32(&idx.closedFlg, 0, 1) {
 		atomic.AddInt64(&doubleClosed, 1)
 		return
@@ -504,6 +532,9 @@ func (s *stubSelector) Delete() {
 	if s == nil {
 		return
 	}
+	if Quiet {
+		return
+	}
 	if atomic.CompareAndSwapInt32(&s.deleted, 0, 1) {
 		atomic.AddInt64(&selLive, -1)
 	}
@@ -513,7 +544,9 @@ func NewIDSelectorBatch(indices []int64) (Selector, error) {
 	if err := enter("NewIDSelectorBatch"); err != nil {
 		return nil, err
 	}
-	atomic.AddInt64(&selLive, 1)
+	if !Quiet {
+		atomic.AddInt64(&selLive, 1)
+	}
 	return &stubSelector{set: idSet(indices)}, nil
 }
 
@@ -521,7 +554,9 @@ func NewIDSelectorNot(exclude []int64) (Selector, error) {
 	if err := enter("NewIDSelectorNot"); err != nil {
 		return nil, err
 	}
-	atomic.AddInt64(&selLive, 1)
+	if !Quiet {
+		atomic.AddInt64(&selLive, 1)
+	}
 	return &stubSelector{set: idSet(exclude), negate: true}, nil
 }
 
